@@ -1,12 +1,14 @@
 package cputensor
 
 import "gonum.org/v1/gonum/stat/distuv"
+import "github.com/sahandsafizadeh/qeep/tensor/internal/verifhook"
 
 func (t *CPUTensor) initWith(initFunc initializerFunc) {
 
 	var fill func([]int, *any)
 	fill = func(dims []int, data *any) {
 		if len(dims) == 0 {
+			verifhook.Point("initWith")
 			*data = initFunc()
 			return
 		}
